@@ -933,9 +933,8 @@ Theorem go_meets_spec_plain_proved :
 Proof.
   intros H1 H2 H3 H4 H5 H6 H7 H8 H9 H10 H11 a Hwf.
   destruct (go_meets_spec_proved H1 H2 H3 H4 H5 H6 H7 H8 H9 H10 H11 a Hwf) as (d & Hc & Hs).
-  exists d. split; auto.
-  replace (direct_anc_shown a Go) with true in Hs; auto.
-  unfold direct_anc_shown, Go. cbn [m_direct_anc]. rewrite H11. reflexivity.
+  assert (E : direct_anc_shown a Go = true) by (unfold direct_anc_shown, Go; cbn [m_direct_anc]; rewrite H11; reflexivity).
+  exists d. split; [exact Hc|]. rewrite E in Hs. exact Hs.
 Qed.
 
 (* the same while some repairs are missing: the schema avoids the shapes the missing ones are about *)
